@@ -3,12 +3,13 @@
 usage: assemble_seeded.py <prop> <X> <src dir> <validation jsonl> <detection log>"""
 import json, os, re, shutil, sys
 prop, x, src, valfile, detfile = sys.argv[1:6]
-dst = '/verif/seeded/%s-%s' % (prop, x)
+tag = sys.argv[6] if len(sys.argv) > 6 else ''
+dst = '/verif/seeded/%s-%s%s' % (prop, tag, x)
 os.makedirs(dst, exist_ok=True)
 shutil.copy(os.path.join(src, x + '.patch.diff'), os.path.join(dst, 'patch.diff'))
 shutil.copy(os.path.join(src, x + '.demo.rs'), os.path.join(dst, 'demo.rs'))
 agent = {}
-for cand in (os.path.join(src, x + '.meta.json'), '/tmp/seed_%s_out/%s.meta.json' % (prop, x)):
+for cand in (os.path.join(src, x + '.meta.json'), '/tmp/seed_%s_out/%s.meta.json' % (prop, x)) if not tag else (os.path.join(src, x + '.meta.json'),):
     if os.path.exists(cand):
         try:
             agent = json.load(open(cand))
